@@ -337,6 +337,39 @@ func runC19(c *ctx) error {
 		c.res.Case("observer-frame:"+before, true)
 	}
 	c.res.Hist("observer-frame-maps")
+	// ---------- (c2) option plumbing: every map handed over with WithEnv stays as the caller left it, also when
+	// several env options are given to one call (Sign, Verify, SignSteps) ----------
+	{
+		keys := sigKeys()
+		for i := 0; i < 4*len(keys); i++ {
+			k := keys[i%len(keys)]
+			a := map[string]string{"DEPLOY": "1", fmt.Sprintf("A_%d", i): "a", "SHARED": "from-a"}
+			b := map[string]string{"DEPLOY": "2", fmt.Sprintf("B_%d", i): "b"}
+			third := map[string]string{fmt.Sprintf("C_%d", i): "c"}
+			aBefore, bBefore, cBefore := fmt.Sprint(a), fmt.Sprint(b), fmt.Sprint(third)
+			step := &pipeline.CommandStep{Command: "make", Env: map[string]string{"STEP": "own"}}
+			sf := &signature.CommandStepWithInvariants{CommandStep: *step, RepositoryURL: "git@host:o/r.git"}
+			var sig *pipeline.Signature
+			var serr, verr, sserr error
+			panicked, _ := guard(func() {
+				sig, serr = signature.Sign(context.Background(), k.signer, sf, signature.WithEnv(a), signature.WithEnv(b), signature.WithEnv(third))
+				if serr == nil {
+					verr = signature.Verify(context.Background(), sig, k.verif, sf, signature.WithEnv(a), signature.WithEnv(b), signature.WithEnv(third))
+				}
+				sserr = signature.SignSteps(context.Background(), pipeline.Steps{&pipeline.CommandStep{Command: "make"}}, k.signer, "git@host:o/r.git", signature.WithEnv(a), signature.WithEnv(b))
+			})
+			c.res.OracleChecks++
+			desc := map[string]any{"key": k.id, "options": "WithEnv(a), WithEnv(b), WithEnv(c)", "a": aBefore, "b": bBefore, "c": cBefore}
+			if panicked || serr != nil || verr != nil || sserr != nil {
+				c.res.Fail(core.OracleFailure{What: "signing / verifying with several env options fails", Input: desc, Got: fmt.Sprint(panicked, serr, verr, sserr)})
+			}
+			if fmt.Sprint(a) != aBefore || fmt.Sprint(b) != bBefore || fmt.Sprint(third) != cBefore {
+				c.res.Fail(core.OracleFailure{What: "a map handed over with WithEnv was modified by Sign / Verify / SignSteps", Input: desc, Got: fmt.Sprint(a, b, third), Want: fmt.Sprint(aBefore, bBefore, cBefore)})
+			}
+			c.res.Case(fmt.Sprintf("several-env-options:%d", i), true)
+		}
+		c.res.Hist("several-env-options")
+	}
 	// ---------- (d) steps of one parsed document are distinct objects, also when the document spells them
 	// through one anchor: concurrent in-place work on different steps == the same work done one by one ----------
 	{
